@@ -104,6 +104,8 @@ def handleSheets (op : String) (j : Json) : Except String Json := do
       let s ← sheetOfJ j
       pure (Json.mkObj [
         ("tojson", jcontentJ (toJson s)),
+        -- what `convert` writes for the sheet: `to_json` of what the source's reader delivered
+        ("convert", jcontentJ (toJson s.omitEmpty)),
         ("json", exceptSheetJ (readJsonSheet s.name (toJson s))),
         ("xlsx", xtableJ (xlsxSanitize (toXlsxGrid s))),
         ("csv", exceptSheetJ (readCsvSheet s.name (toCsvRecords s)))])
